@@ -1,3 +1,7 @@
--- This module serves as the root of the `Conc` library.
--- Import modules here that should be built as part of the library.
-import Conc.Basic
+import Conc.Model
+import Conc.Lockset
+import Conc.LockOrder
+import Conc.Table
+import Conc.Fetch
+import Conc.Gen
+import Conc.Props
